@@ -109,6 +109,8 @@ type fnCtx struct {
 	reads     []readEvent
 	modelVars []modelVar
 	firstIter []string
+	callOrd   map[string]int
+	assertHit map[int]bool
 }
 
 type retInfo struct {
